@@ -271,7 +271,7 @@ def run_case(desc):
     with tmpdir("c04-") as scratch:
         jobs, meta = [], {}
         for i in range(desc["start"], desc["start"] + desc["n"]):
-            case = mapgen.case_from_seed(desc["seed"], i)
+            case = mapgen.case_from_seed(desc["seed"], i, allow_picker=(i % 3 == 2))
             npl = _none_plan(case, i)
             env, _ = mapgen.oracle(case, none_terms=({npl[1]} if npl else ()))
             if npl:
